@@ -212,8 +212,9 @@ var checkHist = ev.Register("histogram", func(c *Case) ev.Outcome {
 		exactRank := ref.Mul(ref.BI(int(total)), ref.B(q))
 		gf := ref.F64(exactRank)
 		g := math.Floor(gf)
-		if math.Abs(gf-math.Round(gf)) < 1e-9 && gf != math.Round(gf) {
-			// floor(q*total) is within rounding of an integer: either rank may be used
+		if r := math.Round(gf); gf != r && math.Abs(gf-r) <= 4*ref.Eps*math.Max(1, r) {
+			// q*total is within a few ulp of an integer: the float64 product may round onto it, so
+			// either rank may be used. (Anything further away is decided by floor.)
 			continue
 		}
 		if g <= float64(under) || g > float64(total-over) {
@@ -361,6 +362,11 @@ func drawCase(t *rapid.T) *Case {
 			}
 		default:
 			c.Qs = append(c.Qs, rapid.Float64Range(0, 1).Draw(t, "q"))
+		}
+		if n > 0 && rapid.IntRange(0, 3).Draw(t, "justBelowRank") == 0 {
+			// just below a rank boundary k/total: floor must still give k-1
+			k := float64(rapid.IntRange(1, n).Draw(t, "kb"))
+			c.Qs[len(c.Qs)-1] = rapid.SampledFrom([]float64{(k - 1e-10) / float64(n), (k - 1e-12) / float64(n), (k - 1e-7) / float64(n), float64(rapid.IntRange(1, 99).Draw(t, "pct")) / 100}).Draw(t, "qb")
 		}
 	}
 	return c
